@@ -475,6 +475,14 @@ impl<B> RequestBuilder<B> {
     }
 }
 
+#[cfg(feature = "verif-hooks")]
+impl<B> RequestBuilder<B> {
+    /// Snapshot of the settings carried by this `RequestBuilder` (verification hook).
+    pub fn verif_settings(&self) -> crate::verif_hooks::SettingsSnapshot {
+        crate::verif_hooks::SettingsSnapshot::of(&self.base_settings)
+    }
+}
+
 /// Allows to inspect the properties of a request before preparing it.
 #[derive(Debug)]
 pub struct RequestInspector<'a, B>(&'a mut RequestBuilder<B>);
